@@ -145,3 +145,15 @@ func sortColumnNamesIntoList(attrMap map[string]*sysl.Type) []string {
 	sort.Strings(sortedColumnNames)
 	return sortedColumnNames
 }
+
+// sortNamesByLine orders names by the source line they were declared on. Declarations that come from
+// different files can share a line number; those are ordered by name, so that every name is kept.
+func sortNamesByLine(names []string, line func(name string) int32) {
+	sort.Slice(names, func(i, j int) bool {
+		lineI, lineJ := line(names[i]), line(names[j])
+		if lineI != lineJ {
+			return lineI < lineJ
+		}
+		return names[i] < names[j]
+	})
+}
